@@ -2381,13 +2381,22 @@ impl RaftNode {
             if log_ok {
                 success = self.append_leader_entries(&ae.entries, &mut persistent);
 
-                match_index = persistent.array_len_as_log_index();
+                // Only the prefix this request verified (prev entry + the entries it
+                // carried) is known to match the leader; anything beyond it in the
+                // local log may be a stale tail from an earlier term.
+                let last_verified = ae
+                    .entries
+                    .last()
+                    .map_or(ae.prev_log_index, |e| e.index)
+                    .min(persistent.array_len_as_log_index());
+                match_index = last_verified;
 
                 // Update commit index
                 let mut volatile = self.volatile.write();
                 if ae.leader_commit > volatile.commit_index {
-                    volatile.commit_index =
-                        ae.leader_commit.min(persistent.array_len_as_log_index());
+                    volatile.commit_index = volatile
+                        .commit_index
+                        .max(ae.leader_commit.min(last_verified));
                 }
             }
         }
@@ -2422,6 +2431,11 @@ impl RaftNode {
                 leadership.leader_volatile = None;
             }
             self.stop_heartbeat_task();
+            return;
+        }
+
+        // A response from an earlier term says nothing about the follower's log now.
+        if aer.term < persistent.current_term {
             return;
         }
 
